@@ -780,6 +780,9 @@ class NpyArray:
         # Reset length
         self.shape = (length, ) + self.shape[1:]
         self._prepare_header_data()
+        # Write the shorter header before cutting the data: a file with trailing bytes still
+        # loads, a file shorter than its header says does not
+        self._write_header_data()
 
         self.fs.seek(self.header_length + self.size * self.itemsize)
         self.fs.truncate()
